@@ -113,3 +113,62 @@ Definition sig_ok (r s recid : N) (sig : list N) : bool :=
   | [v] => N.eqb v (27 + recid) && (N.eqb v 27 || N.eqb v 28)
   | _ => false
   end.
+
+(* ---------------------------------------------------------------------------------------- *)
+(* A signing session and its batch.
+
+   The executors (chains/evm/executor Execute / watchExecution / executeBatch, chains/substrate/
+   executor Execute / watchExecution / executeProposal) start one signing session per batch: they ask
+   the bridge for the digest of the batch, hand that value to threshold signing under the session
+   id of the batch and, when the signature arrives, submit the SAME batch with it.  *)
+
+Fixpoint bytes_eqb (a b : list N) : bool :=
+  match a, b with
+  | [], [] => true
+  | x :: a', y :: b' => N.eqb x y && bytes_eqb a' b'
+  | _, _ => false
+  end.
+
+Definition proposal_eqb (p q : proposal) : bool :=
+  N.eqb (p_origin p) (p_origin q) && N.eqb (p_nonce p) (p_nonce q) &&
+  bytes_eqb (p_rid p) (p_rid q) && bytes_eqb (p_data p) (p_data q).
+
+Fixpoint proposals_eqb (a b : list proposal) : bool :=
+  match a, b with
+  | [], [] => true
+  | p :: a', q :: b' => proposal_eqb p q && proposals_eqb a' b'
+  | _, _ => false
+  end.
+
+(* what was observed of one session: the batch its session id stands for, the 32 bytes the submitted
+   signature is a signature of (= the value that was handed to threshold signing), the batch that was
+   submitted with that signature *)
+Record session := { s_batch : list proposal; s_signed : list N; s_submitted : list proposal }.
+
+Section Session.
+  Variable H : list N -> list N.
+
+  (* two batches are the same commitment for a destination: their digests are equal.  (The first
+     disjunct is only a shortcut of the second: equal batches have equal digests.) *)
+  Definition same_commitment (d : domain) (a b : list proposal) : bool :=
+    proposals_eqb a b || bytes_eqb (digest H d a) (digest H d b).
+
+  (* SPECIFICATION: the value handed to signing for the session is the EIP-712 digest of the
+     session's batch, and what is submitted with the signature hashes to the value that was signed *)
+  Definition session_ok (d : domain) (s : session) : bool :=
+    bytes_eqb (digest H d (s_batch s)) (s_signed s) && same_commitment d (s_submitted s) (s_batch s).
+
+  (* the executors as coded: hash the batch, sign that, submit the batch *)
+  Definition model_session (d : domain) (b : list proposal) : session :=
+    {| s_batch := b; s_signed := digest H d b; s_submitted := b |}.
+End Session.
+
+(* ---------------------------------------------------------------------------------------- *)
+(* The digest as a function of its arguments only: [ds] are the digests of some argument tuples,
+   [seen] what an implementation returned for tuple number i at some point of a history / under
+   concurrent use.  SPECIFICATION: every answer for tuple i is the digest of tuple i. *)
+Definition multi_ok (ds : list (list N)) (seen : list (nat * list N)) : bool :=
+  forallb (fun x => match nth_error ds (fst x) with
+                    | Some d => bytes_eqb d (snd x)
+                    | None => false
+                    end) seen.
